@@ -377,8 +377,8 @@ fn fam_block(rng: &mut Rng) -> Cfg {
 /// Random small CFG; kiki itself filters out the ones with conflicts.
 fn fam_random(rng: &mut Rng) -> Cfg {
     let mut c = Cfg::new("random");
-    let n = rng.range(1, 5);
-    let t = rng.range(1, 5);
+    let n = rng.range(1, 6);
+    let t = rng.range(1, 6);
     for i in 0..n {
         c.nt(&format!("R{}", i));
     }
@@ -506,6 +506,311 @@ pub fn fam_wide(rng: &mut Rng) -> Cfg {
     c
 }
 
+
+/// Indirect (mutual) left recursion: A -> B y | a ; B -> A z | b ; ... used after another symbol.
+fn fam_indirect(rng: &mut Rng) -> Cfg {
+    let mut c = Cfg::new("indirect");
+    let s = c.nt("Unit");
+    c.start = s;
+    let k = rng.range(2, 3);
+    let names = ["Expr", "Call", "Member"];
+    let cyc: Vec<usize> = (0..k).map(|i| c.nt(names[i])).collect();
+    for i in 0..k {
+        let next = cyc[(i + 1) % k];
+        let suffix = c.term(&format!("Post{}", i));
+        let own = c.term(&format!("Base{}", i));
+        if rng.chance(1, 2) {
+            c.rule(cyc[i], vec![N(next), T(suffix)]);
+            c.rule(cyc[i], vec![T(own)]);
+        } else {
+            c.rule(cyc[i], vec![T(own)]);
+            c.rule(cyc[i], vec![N(next), T(suffix)]);
+        }
+        if rng.chance(1, 3) {
+            c.rule(cyc[i], vec![N(next)]);
+        }
+    }
+    let lead = c.nt("Lead");
+    let lt = c.term("Kw");
+    c.rule(lead, vec![T(lt)]);
+    if rng.chance(1, 2) {
+        c.rule(lead, vec![]);
+    }
+    let which = cyc[rng.below(k)];
+    c.rule(s, vec![N(lead), N(which)]);
+    if rng.chance(1, 2) {
+        let semi = c.term("Semi");
+        let other = cyc[rng.below(k)];
+        c.rule(s, vec![N(lead), N(other), T(semi), N(s)]);
+    }
+    c
+}
+
+/// Chains of nonterminals that are nullable only through other nonterminals, declared
+/// top-down or bottom-up, in front of terminals and after other nonterminals.
+fn fam_nullchain(rng: &mut Rng) -> Cfg {
+    let mut c = Cfg::new("nullchain");
+    let item = c.nt("Item");
+    let name = c.nt("Name");
+    let body = c.nt("Body");
+    c.start = item;
+    let depth = rng.range(2, 4);
+    let top_down = rng.chance(1, 2);
+    let mut chain: Vec<usize> = vec![];
+    if top_down {
+        for i in 0..depth {
+            chain.push(c.nt(&format!("Quals{}", i)));
+        }
+    } else {
+        for i in (0..depth).rev() {
+            chain.push(c.nt(&format!("Quals{}", i)));
+        }
+        chain.reverse();
+    }
+    let (kw, id, lc, rc, semi) = (c.term("FnKw"), c.term("Ident"), c.term("LCurly"), c.term("RCurly"), c.term("Semi"));
+    c.rule(item, vec![T(kw), N(name), N(body)]);
+    c.rule(name, vec![T(id)]);
+    c.rule(body, vec![T(semi)]);
+    c.rule(body, vec![N(chain[0]), T(lc), T(rc)]);
+    for i in 0..depth {
+        if i + 1 < depth {
+            c.rule(chain[i], vec![N(chain[i + 1])]);
+            if rng.chance(1, 3) {
+                let t = c.term(&format!("Q{}", i));
+                c.rule(chain[i], vec![T(t)]);
+            }
+        } else {
+            c.rule(chain[i], vec![]);
+            if rng.chance(1, 2) {
+                let t = c.term("Unsafe");
+                c.rule(chain[i], vec![T(t)]);
+            }
+        }
+    }
+    if rng.chance(1, 2) {
+        let items = c.nt("Items");
+        c.rule(items, vec![]);
+        c.rule(items, vec![N(items), N(item)]);
+        c.start = items;
+    }
+    c
+}
+
+/// Nesting whose opener is a nonterminal: Body -> Open Body close | atom ; Open -> open
+fn fam_prefixnest(rng: &mut Rng) -> Cfg {
+    let mut c = Cfg::new("prefixnest");
+    let (b, o) = if rng.chance(1, 2) {
+        let b = c.nt("Body");
+        (b, c.nt("Opener"))
+    } else {
+        let o = c.nt("Intro");
+        (c.nt("Nest"), o)
+    };
+    c.start = b;
+    let (op, cl, at) = (c.term("Open"), c.term("Close"), c.term("Atom"));
+    c.rule(o, vec![T(op)]);
+    if rng.chance(1, 3) {
+        let op2 = c.term("Open2");
+        c.rule(o, vec![T(op2)]);
+    }
+    match rng.below(3) {
+        0 => {
+            c.rule(b, vec![N(o), N(b), T(cl)]);
+            c.rule(b, vec![T(at)]);
+        }
+        1 => {
+            c.rule(b, vec![N(o), N(b), T(cl)]);
+            c.rule(b, vec![N(o), T(cl)]);
+        }
+        _ => {
+            c.rule(b, vec![]);
+            c.rule(b, vec![N(o), N(b), T(cl), N(b)]);
+        }
+    }
+    c
+}
+
+/// Statements sharing long prefixes (LR states whose cores are subsets of one another).
+fn fam_sharedprefix(rng: &mut Rng) -> Cfg {
+    let mut c = Cfg::new("sharedprefix");
+    let s = c.nt("Stmt");
+    let call = c.nt("Call");
+    let index = c.nt("Index");
+    c.start = s;
+    let (le, id, lp, ls, semi, comma) =
+        (c.term("Let"), c.term("Id"), c.term("LParen"), c.term("LSquare"), c.term("Semi"), c.term("Comma"));
+    c.rule(s, vec![N(call)]);
+    c.rule(s, vec![N(index)]);
+    c.rule(s, vec![T(le), N(call), T(semi)]);
+    if rng.chance(2, 3) {
+        c.rule(s, vec![T(le), N(call), T(comma)]);
+    }
+    if rng.chance(1, 2) {
+        c.rule(s, vec![T(le), N(index), T(semi)]);
+    }
+    c.rule(call, vec![T(id), T(lp)]);
+    c.rule(index, vec![T(id), T(ls)]);
+    if rng.chance(1, 2) {
+        let rp = c.term("RParen");
+        c.rule(call, vec![T(id), T(lp), N(s), T(rp)]);
+    }
+    c
+}
+
+/// Random structural mutation of a grammar (kiki itself filters out the conflicting results).
+pub fn mutate(c: &mut Cfg, rng: &mut Rng) -> &'static str {
+    if c.rules.is_empty() {
+        return "none";
+    }
+    let ri = rng.below(c.rules.len());
+    match rng.below(8) {
+        0 => {
+            // wrap a terminal occurrence into a fresh nonterminal
+            let (_, rhs) = c.rules[ri].clone();
+            let pos: Vec<usize> = rhs.iter().enumerate().filter(|(_, s)| matches!(s, T(_))).map(|(i, _)| i).collect();
+            if pos.is_empty() {
+                return "none";
+            }
+            let p = pos[rng.below(pos.len())];
+            let w = c.nt("Wrap");
+            c.rule(w, vec![rhs[p]]);
+            c.rules[ri].1[p] = N(w);
+            "wrap-terminal"
+        }
+        1 => {
+            // make a symbol optional through a fresh nullable nonterminal
+            let (_, rhs) = c.rules[ri].clone();
+            if rhs.is_empty() {
+                return "none";
+            }
+            let p = rng.below(rhs.len());
+            let o = c.nt("Maybe");
+            c.rule(o, vec![]);
+            c.rule(o, vec![rhs[p]]);
+            c.rules[ri].1[p] = N(o);
+            "make-optional"
+        }
+        2 => {
+            // add a random rule
+            let lhs = rng.below(c.nts.len());
+            let len = rng.range(0, 3);
+            let mut rhs = vec![];
+            for _ in 0..len {
+                if !c.terms.is_empty() && rng.chance(3, 5) {
+                    rhs.push(T(rng.below(c.terms.len())));
+                } else {
+                    rhs.push(N(rng.below(c.nts.len())));
+                }
+            }
+            c.rule(lhs, rhs);
+            "add-rule"
+        }
+        3 => {
+            // duplicate a rule with one terminal replaced by a new one
+            let (lhs, mut rhs) = c.rules[ri].clone();
+            if rhs.is_empty() {
+                return "none";
+            }
+            let p = rng.below(rhs.len());
+            let t = c.term("Alt");
+            rhs[p] = T(t);
+            c.rule(lhs, rhs);
+            "variant-rule"
+        }
+        4 => {
+            // nullable chain in front of a symbol
+            let (_, rhs) = c.rules[ri].clone();
+            let p = rng.below(rhs.len() + 1);
+            let top_down = rng.chance(1, 2);
+            let (n1, n2) = if top_down {
+                let a = c.nt("Pre");
+                (a, c.nt("PreInner"))
+            } else {
+                let b = c.nt("PreInner");
+                (c.nt("Pre"), b)
+            };
+            c.rule(n1, vec![N(n2)]);
+            c.rule(n2, vec![]);
+            c.rules[ri].1.insert(p, N(n1));
+            "nullable-chain"
+        }
+        5 => {
+            // replace a symbol by another existing symbol
+            let (_, rhs) = c.rules[ri].clone();
+            if rhs.is_empty() {
+                return "none";
+            }
+            let p = rng.below(rhs.len());
+            c.rules[ri].1[p] = if !c.terms.is_empty() && rng.chance(1, 2) {
+                T(rng.below(c.terms.len()))
+            } else {
+                N(rng.below(c.nts.len()))
+            };
+            "replace-symbol"
+        }
+        6 => {
+            // turn direct recursion into indirect recursion through a fresh nonterminal
+            let (lhs, rhs) = c.rules[ri].clone();
+            if let Some(p) = rhs.iter().position(|s| *s == N(lhs)) {
+                let via = c.nt("Via");
+                c.rule(via, vec![N(lhs)]);
+                c.rules[ri].1[p] = N(via);
+                "indirect-recursion"
+            } else {
+                "none"
+            }
+        }
+        _ => {
+            // delete a symbol
+            if c.rules[ri].1.is_empty() {
+                return "none";
+            }
+            let p = rng.below(c.rules[ri].1.len());
+            c.rules[ri].1.remove(p);
+            "delete-symbol"
+        }
+    }
+}
+
+fn dedup_rules(c: &mut Cfg) {
+    let mut seen: Vec<(usize, Vec<Sym>)> = vec![];
+    c.rules.retain(|r| {
+        if seen.contains(r) {
+            false
+        } else {
+            seen.push(r.clone());
+            true
+        }
+    });
+}
+
+/// Shuffles the declaration order of nonterminals and of the rules (rule indices change).
+fn shuffle_declarations(c: &mut Cfg, rng: &mut Rng) {
+    let n = c.nts.len();
+    let mut perm: Vec<usize> = (0..n).collect();
+    if rng.chance(1, 2) {
+        rng.shuffle(&mut perm);
+    }
+    // perm[new] = old
+    let mut inv = vec![0usize; n];
+    for (new, old) in perm.iter().enumerate() {
+        inv[*old] = new;
+    }
+    c.nts = perm.iter().map(|o| c.nts[*o].clone()).collect();
+    c.start = inv[c.start];
+    for r in c.rules.iter_mut() {
+        r.0 = inv[r.0];
+        for s in r.1.iter_mut() {
+            if let N(i) = s {
+                *i = inv[*i];
+            }
+        }
+    }
+    if rng.chance(1, 2) {
+        rng.shuffle(&mut c.rules);
+    }
+}
+
 fn embed(c: &mut Cfg, other: &Cfg) -> usize {
     // copies `other` into `c` with fresh names; returns the index of other's start
     let nmap: Vec<usize> = other.nts.iter().map(|n| c.nt(n)).collect();
@@ -541,7 +846,7 @@ fn fam_compose(rng: &mut Rng) -> Cfg {
     c.start = s;
     let k = rng.range(2, 3);
     for i in 0..k {
-        let which = rng.below(8);
+        let which = rng.below(12);
         let sub = base_family(rng, which);
         let tag = c.term(&format!("Mode{}", i));
         let st = embed(&mut c, &sub);
@@ -561,6 +866,10 @@ fn base_family(rng: &mut Rng, which: usize) -> Cfg {
         5 => fam_eps(rng),
         6 => fam_json(rng),
         7 => fam_block(rng),
+        8 => fam_indirect(rng),
+        9 => fam_nullchain(rng),
+        10 => fam_prefixnest(rng),
+        11 => fam_sharedprefix(rng),
         _ => fam_random(rng),
     }
 }
@@ -569,12 +878,26 @@ pub const N_FAMILIES: usize = 11;
 
 /// Families meant to be accepted by kiki (random ones are filtered by kiki).
 pub fn accepted_family(rng: &mut Rng) -> Cfg {
-    let w = rng.weighted(&[3, 4, 3, 4, 2, 2, 2, 2, 5, 3, 1]);
-    match w {
-        0..=8 => base_family(rng, w),
-        9 => fam_compose(rng),
+    let w = rng.weighted(&[3, 4, 3, 4, 2, 2, 2, 2, 3, 3, 3, 3, 8, 3, 1]);
+    let mut c = match w {
+        0..=12 => base_family(rng, w),
+        13 => fam_compose(rng),
         _ => fam_wide(rng),
+    };
+    // structural mutations: small deviations from the textbook shapes are where
+    // automaton-construction corner cases live
+    if rng.chance(2, 5) {
+        let k = rng.range(1, 3);
+        let mut tags = vec![];
+        for _ in 0..k {
+            tags.push(mutate(&mut c, rng));
+        }
+        if tags.iter().any(|t| *t != "none") {
+            c.family = format!("{}+mut", c.family);
+        }
     }
+    dedup_rules(&mut c);
+    c
 }
 
 // --------------------------------------------------------------- decoration
@@ -608,16 +931,21 @@ pub struct DecoOpts {
     /// add unreachable nonterminals
     pub unreachable: bool,
     pub payload: &'static str,
+    /// shuffle declaration order and randomise the sort order of symbol names
+    pub shuffle: bool,
 }
 
 impl Default for DecoOpts {
     fn default() -> Self {
-        DecoOpts { collide_pct: 8, unreachable: true, payload: "crate::Tok" }
+        DecoOpts { collide_pct: 8, unreachable: true, payload: "crate::Tok", shuffle: true }
     }
 }
 
 pub fn decorate(cfg: &Cfg, rng: &mut Rng, opts: DecoOpts) -> Grammar {
     let mut c = cfg.clone();
+    if opts.shuffle && rng.chance(1, 2) {
+        shuffle_declarations(&mut c, rng);
+    }
     if opts.unreachable && rng.chance(1, 4) && !c.terms.is_empty() {
         let u = c.nt("Orphan");
         let t0 = rng.below(c.terms.len());
@@ -645,14 +973,30 @@ pub fn decorate(cfg: &Cfg, rng: &mut Rng, opts: DecoOpts) -> Grammar {
     } else {
         fresh("Token", &mut used)
     };
+    // symbol names decide the order in which kiki visits symbols, items and states: randomise
+    // it (a random leading letter) in about half of the grammars
+    let rename = opts.shuffle && rng.chance(1, 2);
+    let letter = |rng: &mut Rng| -> char { (b'A' + rng.below(26) as u8) as char };
     let mut nt_names = vec![];
     for n in &c.nts {
-        let want = if rng.chance(opts.collide_pct, 100) { (*rng.pick(INTERNAL_NT_NAMES)).to_string() } else { n.clone() };
+        let want = if rng.chance(opts.collide_pct, 100) {
+            (*rng.pick(INTERNAL_NT_NAMES)).to_string()
+        } else if rename {
+            format!("{}{}", letter(rng), n.to_ascii_lowercase())
+        } else {
+            n.clone()
+        };
         nt_names.push(fresh(&want, &mut used));
     }
     let mut t_names = vec![];
     for t in &c.terms {
-        let want = if rng.chance(opts.collide_pct, 100) { (*rng.pick(INTERNAL_T_NAMES)).to_string() } else { t.clone() };
+        let want = if rng.chance(opts.collide_pct, 100) {
+            (*rng.pick(INTERNAL_T_NAMES)).to_string()
+        } else if rename {
+            format!("{}{}", letter(rng), t.to_ascii_lowercase())
+        } else {
+            t.clone()
+        };
         t_names.push(fresh(&want, &mut used));
     }
 
@@ -755,6 +1099,11 @@ pub fn workload_grammar(rng: &mut Rng) -> Grammar {
     for n in g.nts.iter_mut() {
         if n.name == "Eof" {
             n.name = "Eofx".into();
+        }
+        // likewise a start symbol called `S` is shadowed by the type parameter of the emitted
+        // `parse<S>` and the module does not compile (C05 again)
+        if n.name == "S" {
+            n.name = "Sx".into();
         }
     }
     for t in g.terms.iter_mut() {
